@@ -156,7 +156,8 @@ def gen_history(rnd, nops):
                 elif c == 's':
                     add(rnd.choice(STRS))
                 elif c == 'k':
-                    add(rnd.choice(['a', 'b', 'c', 'd', 'zz']))
+                    # (keys that look like array indexes are ordinary keys: an object lists its keys in insertion order)
+                    add(rnd.choice(['a', 'b', 'c', 'd', 'zz', '10', '2', '0', '-1', '1.5']))
                 elif c == 'c':
                     add(rnd.choice([65, 97, 0x1F600, 48, -1, 1.5, 'a']))
                 elif c == 'v':
